@@ -395,6 +395,23 @@ Op("stack", "join", _gen_stack,
    np_on_objects(lambda np_, m, kw: np_.stack(list(m), axis=kw["axis"])))
 
 
+def _stack_out_call(ns, ops, kw):
+    """stack into an explicit output polynomial that has storage for every term of the result."""
+    import numpoly
+
+    ref = numpoly.stack(list(ops), axis=kw["axis"])
+    out = numpoly.polynomial_from_attributes(
+        ref.exponents, [numpy.zeros(ref.shape, dtype=ref.dtype)] * len(ref.exponents),
+        names=ref.names, dtype=ref.dtype, retain_coefficients=True, retain_names=True)
+    res = ns.stack(list(ops), axis=kw["axis"], out=out)
+    return [out if res is None else res, out]
+
+
+_stack_model = np_on_objects(lambda np_, m, kw: np_.stack(list(m), axis=kw["axis"]))
+Op("stack_out", "join", _gen_stack, _stack_out_call,
+   lambda mods, kw: [_stack_model(mods, kw)] * 2, result="polylist", npname="stack")
+
+
 def _gen_xstack(which):
     def gen(g):
         count = g.rng.randint(1, 3)
@@ -1183,8 +1200,18 @@ def _gen_close(g):
     return case
 
 
-mirror("isclose", _gen_close, lambda ns, ops, kw: ns.isclose(ops[0], ops[1], **kw))
-mirror("allclose", _gen_close, lambda ns, ops, kw: ns.allclose(ops[0], ops[1], **kw))
+def _close_call(name):
+    def call(ns, ops, kw):
+        func = getattr(ns, name)
+        if "rtol" in kw and "atol" in kw and (int(getattr(ops[0], "size", 1)) + int(getattr(ops[1], "ndim", 0))) % 2:
+            # tolerances given positionally, in numpy's order (a, b, rtol, atol)
+            return func(ops[0], ops[1], kw["rtol"], kw["atol"])
+        return func(ops[0], ops[1], **kw)
+    return call
+
+
+mirror("isclose", _gen_close, _close_call("isclose"))
+mirror("allclose", _gen_close, _close_call("allclose"))
 
 
 def _gen_numdiv(g):
